@@ -1,4 +1,5 @@
-import Pcore.Proofs.DispatchDecl
+import Pcore.Proofs.DispatchRun
+import Pcore.Proofs.DispatchCtors
 /-!
 # C16 — Dispatch and construction are type-safe
 
@@ -36,9 +37,15 @@ Full statement / proved / missing
 * `C16_new`            — `newInstance recv args = value r` ⇒ `r` is an instance of the receiver (of the contained type for
                          `Init[T]`), for every constructor function, hence never a value outside the type; `C16_new_outside`:
                          a constructor result outside the type becomes `reported TYPE_MISMATCH`.
-* missing / trusted    — constructors' own bodies (Integer from String …) are not modelled: `C16_new` quantifies over an
-                         arbitrary constructor function, and the `new` op of the correspondence run is implementation-only (a
-                         test with the direct predicate, not a proof).  Receiver resolution from a *string* (`px.Load`), the
+* `Alpha.C16_newm`, `Alpha.C16_ctor_no_fault` — for the three constructors modelled end to end on the driver's alphabet
+                         (Integer, Boolean, Array: dispatch table built by the same builder, body, assertion; also through
+                         `Init[T]`): the value that comes out is in the receiver type, and no type assertion / index of a body
+                         can fail because a body only runs with arguments its declaration accepts (compared value by value
+                         with the real constructors by the op `newm`).
+* missing / trusted    — the other constructors' bodies (String formatting, Hash from tree arrays, Timespan, SemVer, …) are not
+                         modelled: `C16_new` quantifies over an arbitrary constructor function, and the general `new` op of
+                         the correspondence run is implementation-only (a test with the direct predicate, not a proof);
+                         `strconv.ParseInt` is modelled, not verified.  Receiver resolution from a *string* (`px.Load`), the
                          mismatch describer that builds the error text, and `block.PType() == nil` are outside the model.
                          Block types are modelled for the shapes `Callable` and `Callable[min,max]` in the driver; the theorems
                          hold for any `binst`.
@@ -51,51 +58,14 @@ variable {T BT V B : Type}
 /-! ### the builder -/
 
 theorem C16_builder_inv (ops : List (BOp T BT)) (b : Builder T BT) (h : steps Builder.init ops = .ok b) :
-    ParamInv b (paramsOf ops) ∧ BlockInv b (blocksOf ops) := by
-  simpa using steps_inv ops Builder.init b [] [] paramInv_init blockInv_init h
+    ParamInv b (paramsOf ops) ∧ BlockInv b (blocksOf ops) := builder_inv ops b h
 
 theorem C16_builder_arith (ops : List (BOp T BT)) (b : Builder T BT) (h : steps Builder.init ops = .ok b) :
     leMax b.min b.max = true ∧ b.types = (paramsOf ops).map (·.2) ∧ b.types.length = (paramsOf ops).length ∧
     b.min ≤ b.types.length ∧
     (∀ m, b.max = some m → m = b.types.length ∧ ∀ p ∈ paramsOf ops, p.1.repeated = false) ∧
-    (b.max = none → ∃ pre p, paramsOf ops = pre ++ [p] ∧ p.1.repeated = true ∧ ∀ q ∈ pre, q.1.repeated = false) := by
-  obtain ⟨⟨hty, a, o, tl, hk, hro, hmin, hmax⟩, _⟩ := C16_builder_inv ops b h
-  have hlen : (paramsOf ops).length = a + o + tl.kinds.length := by
-    have := congrArg List.length hk
-    simpa [shape_length] using this
-  have htl : b.types.length = (paramsOf ops).length := by simp [hty]
-  refine ⟨?_, hty, htl, ?_, ?_, ?_⟩
-  · rw [hmin, hmax]; cases tl <;> simp [tailMin, tailMax, leMax]
-  · rw [hmin, htl, hlen]; cases tl <;> simp [tailMin, Tail.kinds] <;> omega
-  · intro m hm
-    rw [hmax] at hm
-    cases tl with
-    | none =>
-      simp [tailMax] at hm
-      refine ⟨by rw [htl, hlen]; simp [Tail.kinds]; omega, ?_⟩
-      intro p hp
-      exact (shape_no_repeated (a := a) (o := o) (tl := .none)).mpr rfl p.1
-        (by rw [← hk]; exact List.mem_map.mpr ⟨p, hp, rfl⟩)
-    | rep => simp [tailMax] at hm
-    | reqrep => simp [tailMax] at hm
-  · intro hm
-    rw [hmax] at hm
-    have key : ∀ k : PKind, k.repeated = true →
-        (paramsOf ops).map (·.1) = (List.replicate a .req ++ List.replicate o .opt) ++ [k] →
-        ∃ pre p, paramsOf ops = pre ++ [p] ∧ p.1.repeated = true ∧ ∀ q ∈ pre, q.1.repeated = false := by
-      intro k hkr hmap
-      obtain ⟨l1, l2, hl, h1, h2⟩ := List.map_eq_append_iff.mp hmap
-      obtain ⟨p, rfl, hp⟩ := List.map_eq_singleton_iff.mp h2
-      refine ⟨l1, p, hl, by rw [hp]; exact hkr, ?_⟩
-      intro q hq
-      have : q.1 ∈ List.replicate a PKind.req ++ List.replicate o PKind.opt := by
-        rw [← h1]; exact List.mem_map.mpr ⟨q, hq, rfl⟩
-      simp at this
-      rcases this with ⟨_, h'⟩ | ⟨_, h'⟩ <;> rw [h'] <;> rfl
-    cases tl with
-    | none => simp [tailMax] at hm
-    | rep => exact key .rep rfl (by simpa [shapeKinds, Tail.kinds] using hk)
-    | reqrep => exact key .reqrep rfl (by simpa [shapeKinds, Tail.kinds] using hk)
+    (b.max = none → ∃ pre p, paramsOf ops = pre ++ [p] ∧ p.1.repeated = true ∧ ∀ q ∈ pre, q.1.repeated = false) :=
+  builder_arith ops b h
 
 /-- the panics: for ANY accepted prefix -/
 theorem C16_builder_rejects (pre : List (BOp T BT)) (b : Builder T BT) (h : steps Builder.init pre = .ok b) (t : T) (bt : BT) :
@@ -157,9 +127,7 @@ theorem C16_builder_rejects (pre : List (BOp T BT)) (b : Builder T BT) (h : step
 
 /-- `createDispatch` of an accepted builder state never reaches `NewIntegerType(min > max)` -/
 theorem C16_resolves (ops : List (BOp T BT)) (b : Builder T BT) (k : FnKind) (h : steps Builder.init ops = .ok b) :
-    ∃ d, createDispatch b k = .ok d ∧ d.types = b.types ∧ d.min = b.min ∧ d.max = b.max := by
-  have := (C16_builder_arith ops b h).1
-  simp [createDispatch, this]
+    ∃ d, createDispatch b k = .ok d ∧ d.types = b.types ∧ d.min = b.min ∧ d.max = b.max := resolves ops b k h
 
 /-! ### the call -/
 
@@ -174,8 +142,8 @@ def Satisfies (d : Dispatch T BT) (args : List V) (blk : Option B) : Prop :=
 theorem C16_first (ds : List (Dispatch T BT)) (args : List V) (blk : Option B) (i : Nat)
     (h : call inst binst ds args blk = .ran i) :
     ∃ d, ds[i]? = some d ∧ callableWith inst binst d args blk = true ∧
-      ∀ j, j < i → ∀ d', ds[j]? = some d' → callableWith inst binst d' args blk = false := by
-  simpa using (callFrom_ran inst binst ds args blk 0 i h).2
+      ∀ j, j < i → ∀ d', ds[j]? = some d' → callableWith inst binst d' args blk = false :=
+  call_first inst binst ds args blk i h
 
 theorem C16_first_conv (ds : List (Dispatch T BT)) (args : List V) (blk : Option B) (i : Nat) (d : Dispatch T BT)
     (hd : ds[i]? = some d) (hc : callableWith inst binst d args blk = true)
@@ -212,133 +180,36 @@ theorem C16_safe (d : Dispatch T BT) (args : List V) (blk : Option B) :
 
 theorem C16_nomatch (ds : List (Dispatch T BT)) (args : List V) (blk : Option B) :
     (∀ d ∈ ds, callableWith inst binst d args blk = false) ↔ call inst binst ds args blk = .reported :=
-  (callFrom_reported inst binst ds args blk 0).symm
+  call_nomatch inst binst ds args blk
 
-/-- the tuple test of a dispatch built by an accepted builder sequence is the positional reading of the declaration -/
+/-- the tuple test of a dispatch built by an accepted builder sequence is the positional reading of the declaration
+    (`DeclAccepts`, Proofs/DispatchDecl.lean) -/
 theorem C16_decl (ops : List (BOp T BT)) (b : Builder T BT) (h : steps Builder.init ops = .ok b) (args : List V) :
     tupleInst inst b.types b.min b.max args = true ↔ DeclAccepts inst (paramsOf ops) args :=
-  decl_iff inst b (paramsOf ops) (C16_builder_inv ops b h).1 args
+  built_decl inst ops b h args
 
-/-! ### end to end: from the builder calls of a table to the body that runs -/
-
-/-- the block requirement a creator declares: its (only) block call; `none` without one -/
-def declaredBlock (c : Creator T BT) : BlockReq BT := (blocksOf c.ops).headD .none
-
-/-- the arguments and the block satisfy the declaration written by creator `c` -/
-def CreatorAccepts (c : Creator T BT) (args : List V) (blk : Option B) : Prop :=
-  DeclAccepts inst (paramsOf c.ops) args ∧ BlockSat binst (declaredBlock c) blk
-
-theorem buildOne_callable (c : Creator T BT) (b : Builder T BT) (hb : buildOne c = .ok b) :
-    ∃ d, createDispatch b c.kind = .ok d ∧
-      ∀ (args : List V) (blk : Option B), callableWith inst binst d args blk = true ↔ CreatorAccepts inst binst c args blk := by
-  unfold buildOne at hb
-  cases hs : steps Builder.init c.ops with
-  | error p => simp [hs] at hb
-  | ok b0 =>
-    simp [hs] at hb
-    have hb0 : b = b0 := by
-      cases hk : c.kind <;> simp only [finish, hk] at hb <;> split at hb <;> first | (cases hb; rfl) | cases hb
-    subst hb0
-    obtain ⟨d, hd, hty, hmin, hmax⟩ := C16_resolves c.ops b c.kind hs
-    refine ⟨d, hd, ?_⟩
-    intro args blk
-    have hbi := (C16_builder_inv c.ops b hs).2
-    have hblock : d.block = declaredBlock c := by
-      simp [createDispatch, (C16_builder_arith c.ops b hs).1] at hd
-      rw [← hd]
-      unfold declaredBlock
-      cases hk : c.kind with
-      | fn =>
-        simp [finish, hk] at hb
-        rcases blockInv_cases hbi with ⟨h0, _, _⟩ | ⟨bt', _, h1, _⟩ | ⟨bt', _, h1, _⟩
-        · simp [h0]
-        · simp [h1] at hb
-        · simp [h1] at hb
-      | fn2 =>
-        simp [finish, hk] at hb
-        rcases blockInv_cases hbi with ⟨_, h1, _⟩ | ⟨bt', h0, h1, h2⟩ | ⟨bt', h0, h1, h2⟩
-        · simp [h1] at hb
-        · simp [h0, h1, h2]
-        · simp [h0, h1, h2]
-    unfold callableWith CreatorAccepts
-    rw [Bool.and_eq_true, blockOK_iff, hty, hmin, hmax, hblock, C16_decl inst c.ops b hs args]
-    exact And.comm
-
-theorem run_tables (cs : List (Creator T BT)) :
-    (∃ p, buildAll cs = .error p) ∨
-    ∃ bs ds, buildAll cs = .ok bs ∧ resolveAll bs = .ok ds ∧ ds.length = cs.length ∧
-      ∀ (i : Nat) (c : Creator T BT) (d : Dispatch T BT), cs[i]? = some c → ds[i]? = some d →
-        ∀ (args : List V) (blk : Option B), callableWith inst binst d args blk = true ↔ CreatorAccepts inst binst c args blk := by
-  induction cs with
-  | nil => right; exact ⟨[], [], rfl, rfl, rfl, by intro i c d h; simp at h⟩
-  | cons c cs ih =>
-    unfold buildAll
-    cases hb : buildOne c with
-    | error p => left; exact ⟨p, by simp⟩
-    | ok b =>
-      rcases ih with ⟨p, hp⟩ | ⟨bs, ds, hbs, hds, hlen, hall⟩
-      · left; exact ⟨p, by simp [hp]⟩
-      · right
-        obtain ⟨d, hd, hcw⟩ := buildOne_callable inst binst c b hb
-        refine ⟨(b, c.kind) :: bs, d :: ds, by simp [hbs], by simp [resolveAll, hd, hds], by simp [hlen], ?_⟩
-        intro i c' d' hc' hd'
-        cases i with
-        | zero => simp at hc' hd'; subst hc' hd'; exact hcw
-        | succ i' => simp at hc' hd'; exact hall i' c' d' hc' hd'
+/-! ### end to end: from the builder calls of a table to the body that runs
+`CreatorAccepts c args blk` (Proofs/DispatchRun.lean) = `DeclAccepts` of the creator's parameter calls ∧ `BlockSat` of its
+(only) block call. -/
 
 /-- the body that runs is that of the FIRST creator whose declaration the arguments and the block satisfy -/
 theorem C16_run_first (cs : List (Creator T BT)) (args : List V) (blk : Option B) (i : Nat)
     (h : run inst binst cs args blk = .called (.ran i)) :
     ∃ c, cs[i]? = some c ∧ CreatorAccepts inst binst c args blk ∧
-      ∀ j, j < i → ∀ c', cs[j]? = some c' → ¬ CreatorAccepts inst binst c' args blk := by
-  rcases run_tables inst binst cs with ⟨p, hp⟩ | ⟨bs, ds, hbs, hds, hlen, hall⟩
-  · simp [run, hp] at h
-  · simp [run, hbs, hds] at h
-    obtain ⟨d, hd, hc, hearlier⟩ := C16_first inst binst ds args blk i h
-    have hi : i < cs.length := by
-      rw [← hlen]; exact (List.getElem?_eq_some_iff.mp hd).1
-    refine ⟨cs[i], by simp [hi], ?_, ?_⟩
-    · exact (hall i cs[i] d (by simp [hi]) hd args blk).mp hc
-    · intro j hj c' hc' hacc
-      have hjl : j < ds.length := by rw [hlen]; omega
-      have := hearlier j hj ds[j] (by simp [hjl])
-      rw [(hall j c' ds[j] hc' (by simp [hjl]) args blk).mpr hacc] at this
-      cases this
+      ∀ j, j < i → ∀ c', cs[j]? = some c' → ¬ CreatorAccepts inst binst c' args blk :=
+  run_first inst binst cs args blk i h
 
 /-- an argument error is reported exactly when no declaration is satisfied -/
 theorem C16_run_nomatch (cs : List (Creator T BT)) (args : List V) (blk : Option B)
     (hacc : ∃ bs, buildAll cs = .ok bs) :
-    run inst binst cs args blk = .called .reported ↔ ∀ c ∈ cs, ¬ CreatorAccepts inst binst c args blk := by
-  rcases run_tables inst binst cs with ⟨p, hp⟩ | ⟨bs, ds, hbs, hds, hlen, hall⟩
-  · obtain ⟨bs, hbs⟩ := hacc; simp [hp] at hbs
-  · simp only [run, hbs, hds]
-    constructor
-    · intro h c hc hacc'
-      have h' : call inst binst ds args blk = .reported := by simpa using h
-      have hno := (C16_nomatch inst binst ds args blk).mpr h'
-      obtain ⟨i, hi, hci⟩ := List.getElem_of_mem hc
-      have hil : i < ds.length := by rw [hlen]; exact hi
-      have := hno ds[i] (List.getElem_mem hil)
-      rw [(hall i c ds[i] (by simp [hi, hci]) (by simp [hil]) args blk).mpr hacc'] at this
-      cases this
-    · intro h
-      have : call inst binst ds args blk = .reported := by
-        apply (C16_nomatch inst binst ds args blk).mp
-        intro d hd
-        obtain ⟨i, hi, hdi⟩ := List.getElem_of_mem hd
-        have hil : i < cs.length := by rw [← hlen]; exact hi
-        cases hcw : callableWith inst binst d args blk with
-        | false => rfl
-        | true =>
-          exact absurd ((hall i cs[i] d (by simp [hil]) (by simp [hi, hdi]) args blk).mp hcw) (h cs[i] (List.getElem_mem hil))
-      simp [this]
+    run inst binst cs args blk = .called .reported ↔ ∀ c ∈ cs, ¬ CreatorAccepts inst binst c args blk :=
+  run_nomatch inst binst cs args blk hacc
 
 /-- an accepted table always resolves: the `NewIntegerType` error of `createDispatch` is unreachable -/
 theorem C16_run_no_fault (cs : List (Creator T BT)) (args : List V) (blk : Option B) (e : ResolveError) :
-    run inst binst cs args blk ≠ .resolveFailed e := by
-  rcases run_tables inst binst (V := V) (B := B) cs with ⟨p, hp⟩ | ⟨bs, ds, hbs, hds, _, _⟩
-  · simp [run, hp]
-  · simp [run, hbs, hds]
+    run inst binst cs args blk ≠ .resolveFailed e :=
+  run_no_fault inst binst cs args blk e
+
 
 end
 
@@ -353,16 +224,19 @@ def Recv.type? : Recv T V → Option T
   | .ctor t _ => some t
   | .init t _ => some t
   | .initNoCtor => none
+  | .initDefault => none
 
 theorem C16_new (recv : Recv T V) (args : List V) (r : V) (h : newInstance inst recv args = .value r) :
     ∃ t, recv.type? = some t ∧ inst t r = true := by
   cases recv with
   | noCtor t => simp [newInstance] at h
   | initNoCtor => simp [newInstance] at h
+  | initDefault => simp [newInstance] at h
   | ctor t f =>
     simp only [newInstance] at h
     cases hf : f args with
     | reported c => simp [hf] at h
+    | fault => simp [hf] at h
     | value v =>
       simp only [hf, assertInstance] at h
       by_cases hi : inst t v = true
@@ -372,6 +246,7 @@ theorem C16_new (recv : Recv T V) (args : List V) (r : V) (h : newInstance inst 
     simp only [newInstance] at h
     cases hf : f args with
     | reported c => simp [hf] at h
+    | fault => simp [hf] at h
     | value v =>
       simp only [hf, assertInstance] at h
       by_cases hi : inst t v = true
@@ -391,13 +266,82 @@ end
 
 namespace Alpha
 
+/-! ### the modelled constructors (Integer, Boolean, Array on the alphabet values): `new` end to end -/
+
+def RecvTy.type? : RecvTy → Option Ty
+  | .plain t => some t
+  | .init t => some t
+  | .initDefault => none
+
+/-- what `new` returns is an instance of the receiver (of the contained type for `Init[T]`) -/
+theorem C16_newm (r : RecvTy) (args : List Val) (v : Val) (h : newModel r args = some (.value v)) :
+    ∃ t, r.type? = some t ∧ inst t v = true := by
+  unfold newModel at h
+  cases hr : recvOf r with
+  | none => simp [hr] at h
+  | some recv =>
+    simp [hr] at h
+    obtain ⟨t, ht, hi⟩ := C16_new inst recv args v h
+    refine ⟨t, ?_, hi⟩
+    cases r with
+    | plain t0 => simp only [recvOf] at hr; split at hr <;> simp at hr <;> subst hr <;> simpa [Recv.type?, RecvTy.type?] using ht
+    | init t0 => simp only [recvOf] at hr; split at hr <;> simp at hr <;> subst hr <;> simp [Recv.type?, RecvTy.type?] at ht ⊢ <;> exact ht
+    | initDefault => simp [recvOf] at hr; subst hr; simp [Recv.type?] at ht
+
+/-- no type assertion or index in the bodies of the modelled constructors can fail: a body runs only with arguments its
+    declaration accepts -/
+theorem C16_ctor_no_fault (r : RecvTy) (args : List Val) : newModel r args ≠ some .fault := by
+  have hc : ∀ c, ctorOf (match r with | .plain t => t | .init t => t | .initDefault => .never) = .some c →
+      ∀ a, ctorCall c a ≠ .fault := by
+    intro c hc
+    cases r with
+    | plain t => cases t <;> simp [ctorOf] at hc <;> subst hc <;> first | exact integer_no_fault | exact boolean_no_fault | exact array_no_fault
+    | init t => cases t <;> simp [ctorOf] at hc <;> subst hc <;> first | exact integer_no_fault | exact boolean_no_fault | exact array_no_fault
+    | initDefault => simp [ctorOf] at hc
+  unfold newModel
+  cases r with
+  | plain t =>
+    simp only [recvOf]
+    cases hct : ctorOf t with
+    | none => simp [newInstance]
+    | unmodelled => simp
+    | some c =>
+      have := hc c hct args
+      simp only [Option.map_some, newInstance]
+      cases hf : ctorCall c args with
+      | fault => exact absurd hf this
+      | reported _ => simp
+      | value v => simp [assertInstance]; split <;> simp
+  | init t =>
+    simp only [recvOf]
+    cases hct : ctorOf t with
+    | none => simp [newInstance]
+    | unmodelled => simp
+    | some c =>
+      have := initCall_no_fault c (hc c hct) args
+      simp only [Option.map_some, newInstance]
+      cases hf : initCall c args with
+      | fault => exact absurd hf this
+      | reported _ => simp
+      | value v => simp [assertInstance]; split <;> simp
+  | initDefault => simp [recvOf, newInstance]
+
+example : newModel (.plain (.int none none)) [.int 3] = some (.value (.int 3)) := by rfl
+example : newModel (.plain (.int none none)) [.int (-3), .default, .bool true] = some (.value (.int 3)) := by rfl
+example : newModel (.plain (.int (some 0) (some 5))) [.bool true] = some (.value (.int 1)) := by rfl
+example : newModel (.init (.int (some 0) (some 5))) [.int 7] = some (.reported "TYPE_MISMATCH") := by rfl
+example : newModel (.plain (.arr (.int none none) 1 none)) [.arr [.int 1], .bool true] = some (.reported "TYPE_MISMATCH") := by rfl
+example : newModel (.plain (.arr .any 1 none)) [.arr [.int 1], .bool true] = some (.value (.arr [.arr [.int 1]])) := by rfl
+example : newModel (.plain .bool) [.int 0] = some (.value (.bool false)) := by rfl
+example : newModel (.plain (.opt (.int none none))) [.int 0] = some (.reported "INSTANCE_DOES_NOT_RESPOND") := by rfl
+
 /-- `Param(Integer[0,5]); OptionalParam(Boolean); OptionalBlock(Callable[1,1]); RepeatedParam(Variant[Integer,Undef])` -/
 def sampleOps : List (BOp Ty BTy) :=
   [.param (.int (some 0) (some 5)), .optional .bool, .optionalBlock (.range 1 (some 1)),
    .repeated (.var [.int none none, .undef])]
 
 def sampleTable : List (Creator Ty BTy) :=
-  [ { ops := [.param (.arr (.int none none))], kind := .fn },
+  [ { ops := [.param (.arr (.int none none) 0 none)], kind := .fn },
     { ops := sampleOps, kind := .fn2 },
     { ops := [.repeated .any], kind := .fn } ]
 
